@@ -20,10 +20,13 @@ def one(spec):
     basis = model.basis
     terms = G.make_terms(rng, basis, spec["qn"], rng.randint(1, 3), False, bool(spec.get("complex")))
     mpo = Mpo(model, terms)
+    if spec.get("scale"):              # SCALE stream: the norm of the state / operator moved into the tensors
+        mps = mps.scale(spec["scale"][0])
+        mpo = mpo.scale(spec["scale"][1])
     ref_mp = mpo.apply(mps)
     ref = G.dense(ref_mp)
-    if np.linalg.norm(ref) < 1e-8:
-        return None
+    if not np.linalg.norm(ref) > 1e-8 * np.linalg.norm(G.dense(mpo)) * np.linalg.norm(G.dense(mps)) / np.sqrt(len(ref)):
+        return None                    # (numerically) annihilated state: relative comparison ill-conditioned
     bound = max(G.exact_bounds(mps))
     res = {}
     for method in ("2site", "1site"):
